@@ -35,7 +35,8 @@ Table(ss, acc) ==
     ELSE IF s.path = "C" \/ s.alias = "_" THEN Table(Tail(ss), acc)
     ELSE IF s.alias = "." THEN [acc EXCEPT !.err = TRUE]
     ELSE LET n == IF s.alias = "" THEN s.name ELSE s.alias IN
-         IF n \in DOMAIN acc.t THEN [acc EXCEPT !.err = TRUE]
+         IF n = "" THEN [acc EXCEPT !.err = TRUE]          \* the package name of the path cannot be resolved
+         ELSE IF n \in DOMAIN acc.t THEN [acc EXCEPT !.err = TRUE]
          ELSE Table(Tail(ss), [acc EXCEPT !.t = (n :> s.path) @@ acc.t])
 
 GoastTable(ss) == Table(ss, [t |-> <<>>, err |-> FALSE])
@@ -45,6 +46,7 @@ Entered(s) == s.path # "C" /\ s.alias \notin {"_", "."}
 EffName(s) == IF s.alias = "" THEN s.name ELSE s.alias
 Undecidable(ss) ==
   \/ \E i \in DOMAIN ss : ss[i].path # "C" /\ ss[i].alias = "."
+  \/ \E i \in DOMAIN ss : Entered(ss[i]) /\ EffName(ss[i]) = ""
   \/ \E i, j \in DOMAIN ss : i < j /\ Entered(ss[i]) /\ Entered(ss[j]) /\ EffName(ss[i]) = EffName(ss[j])
 
 Init == specs = <<>> /\ done = FALSE
